@@ -170,7 +170,10 @@ def work(exes, start, n, owner):
             elif sols is not None and not sols:
                 part.count("obj: correctly rejected (no value combination satisfies the constraints)")
             else:
-                part.count("obj: rejected with another error (owned by C16): " + msg[:60])
+                part.count("obj: rejected with another error: " + msg[:60])
+                if owner == "C17":
+                    import re
+                    part.violation("obj/valid-program-rejected/" + re.sub(r"\[\d+, \d+\] ", "", msg)[:60], "a valid program of the object-model family is rejected while reading: " + msg, {"program": case["text"], "variant": variant})
             part.case(fp, False, None)
             continue
         nontriv = any(len(d["domain"]) > 1 for d in case["variables"].values()) or bool(case["field_vars"])
